@@ -14,14 +14,19 @@ Definition u : R := / 9007199254740992.      (* 2^-53 *)
 Lemma u_eq : u = / 2 * bpow radix2 (- 53 + 1).
 Proof. unfold u. change (bpow radix2 (-53 + 1)) with (/ IZR (2 ^ 52)). change (2 ^ 52)%Z with 4503599627370496%Z. lra. Qed.
 
-Lemma tiny_le : bpow radix2 (-1074 + 53 - 1) <= / 1073741824.
+Definition tiny : R := / 1267650600228229401496703205376.     (* 2^-100 *)
+
+Lemma tiny_le : bpow radix2 (-1074 + 53 - 1) <= tiny.
 Proof.
-  apply Rle_trans with (bpow radix2 (-30)); [ apply bpow_le; lia | ].
-  change (bpow radix2 (-30)) with (/ IZR (2 ^ 30)). change (2 ^ 30)%Z with 1073741824%Z. lra.
+  apply Rle_trans with (bpow radix2 (-100)); [ apply bpow_le; lia | ].
+  change (bpow radix2 (-100)) with (/ IZR (2 ^ 100)). change (2 ^ 100)%Z with 1267650600228229401496703205376%Z.
+  unfold tiny. lra.
 Qed.
 
+Lemma tiny_small : tiny <= / 1073741824 /\ 0 < tiny. Proof. unfold tiny. lra. Qed.
+
 (** one rounding, no underflow: relative error at most u *)
-Lemma RN_rel x : 0 <= x -> (x = 0 \/ / 1073741824 <= x) -> (1 - u) * x <= RN x <= (1 + u) * x.
+Lemma RN_rel x : 0 <= x -> (x = 0 \/ tiny <= x) -> (1 - u) * x <= RN x <= (1 + u) * x.
 Proof.
   intros Hx [-> | H].
   - rewrite RN_0. lra.
@@ -100,7 +105,7 @@ Proof.
   assert (F : (1 - u) * (IZR r / 1000000000) <= RN (IZR r / 1000000000) <= (1 + u) * (IZR r / 1000000000)).
   { apply RN_rel; [ lra | ].
     destruct (Z.eq_dec r 0) as [-> | N]; [ left; lra | right ].
-    assert (1 <= IZR r) by (apply IZR_le; lia). lra. }
+    assert (1 <= IZR r) by (apply IZR_le; lia). pose proof tiny_small. lra. }
   rewrite E. unfold u in *. lra.
 Qed.
 
@@ -117,7 +122,7 @@ Proof.
   apply RN_rel; [ nra | ].
   destruct (Z.eq_dec o 0) as [-> | N].
   - left. unfold g, E9. cbn. rewrite Rmult_0_l || idtac. unfold Rdiv. rewrite Rmult_0_l, RN_0. lra.
-  - right. pose proof (secs_small o ltac:(lia)). nra.
+  - right. pose proof (secs_small o ltac:(lia)). pose proof tiny_small. nra.
 Qed.
 
 Definition tps_exact (ipd : Z) : R := IZR ipd * (4294967296 / 86400).
@@ -134,7 +139,7 @@ Proof.
   assert (I1 : 1 <= IZR ipd) by (apply IZR_le; lia).
   unfold tps_exact.
   apply (scale_step (1 - u) (1 + u) (IZR ipd * (4294967296 / 86400)) (IZR ipd * B2R c_enc_tpi)); [ nra | lra | nra | ].
-  apply RN_rel; [ nra | right; nra ].
+  apply RN_rel; [ nra | right; pose proof tiny_small; nra ].
 Qed.
 
 (** the float product before truncation, against the exact tick count 2^32 * o / interval *)
@@ -158,7 +163,7 @@ Proof.
     destruct (Z.eq_dec o 0) as [-> | N].
     - left. assert (Z0 : secs 0 = 0) by (unfold secs; lra). rewrite Z0, !Rmult_0_r in SB.
       assert (B2R (duration_seconds 0) = 0) as -> by lra. apply Rmult_0_r.
-    - right. pose proof (secs_small o ltac:(lia)).
+    - right. pose proof (secs_small o ltac:(lia)). pose proof tiny_small.
       assert (1 <= IZR ipd) by (apply IZR_le; lia). unfold tps_exact in *.
       assert (49710 * / 1000000000 <= X) by (unfold X, tps_exact; nra).
       assert ((1 - u) * (1 - u) * ((1 - u) * (1 - u)) >= / 2) by nra. nra. }
@@ -232,4 +237,74 @@ Proof.
     replace ((1 + 6 * u) * (4294967296 * IZR o / n) * (n / 4294967296))
       with ((1 + 6 * u) * (4294967296 * IZR o / n * (n / 4294967296))) in A2 by (field; lra).
     rewrite E in A2. exact A2.
+Qed.
+
+(* ------------------------------------------------------------------------------------------ *)
+(** * Decoder, tick -> time direction: the float fractionalSeconds against the exact tick position *)
+
+Lemma c_dec_value : (1 - u) * (4294967296 / 86400) <= B2R c_dec_tpi <= (1 + u) * (4294967296 / 86400).
+Proof.
+  unfold c_dec_tpi. rewrite cst_exact by (unfold dec_tpi_m, dec_tpi_e; lia).
+  unfold dec_tpi_m, dec_tpi_e, u. change (bpow radix2 (-37)) with (/ IZR (2 ^ 37)).
+  change (2 ^ 37)%Z with 137438953472%Z. split; interval with (i_prec 200).
+Qed.
+
+(** fractionalSeconds as computed by GetTimeFromTicks *)
+Definition dec_fs (ipd ticks : Z) : f64 := f64_div (f64_of_Z ticks) (f64_mul (f64_of_Z ipd) c_dec_tpi).
+
+Theorem dec_fs_accuracy ipd k : (1 <= ipd <= 2 ^ 17)%Z -> (0 <= k < 2 ^ 32)%Z ->
+  let p := IZR k / tps_exact ipd in      (* exact position of tick k, in seconds: k * interval / 2^32 *)
+  (1 - 4 * u) * p <= B2R (dec_fs ipd k) <= (1 + 4 * u) * p.
+Proof.
+  intros Hi Hk p. unfold dec_fs.
+  destruct (of_Z_spec ipd 17 ltac:(lia) ltac:(lia)) as [Ei Bi]. rewrite RN_IZR in Ei by lia.
+  destruct (of_Z_spec k 32 ltac:(lia) ltac:(lia)) as [Ek Bk]. rewrite RN_IZR in Ek by lia.
+  assert (Bc : bnd 16 c_dec_tpi).
+  { unfold c_dec_tpi. change 16%Z with (53 + dec_tpi_e)%Z. apply cst_spec; unfold dec_tpi_m, dec_tpi_e; lia. }
+  destruct (mul_spec _ _ 17 16 ltac:(lia) ltac:(lia) ltac:(lia) Bi Bc) as [ED [FD _]]. rewrite Ei in ED.
+  pose proof c_dec_value as C. pose proof u_pos as U. pose proof tiny_small as [TS0 TS1].
+  assert (I1 : 1 <= IZR ipd <= 131072) by (split; apply IZR_le; lia).
+  assert (K0 : 0 <= IZR k) by (apply IZR_le; lia).
+  set (t := tps_exact ipd) in *. assert (Ht : 49710 <= t <= 6600000000) by (unfold t, tps_exact; nra).
+  (* the denominator *)
+  assert (DB : ((1 - u) * (1 - u)) * t <= B2R (f64_mul (f64_of_Z ipd) c_dec_tpi) <= ((1 + u) * (1 + u)) * t).
+  { rewrite ED. unfold t, tps_exact.
+    apply (scale_step (1 - u) (1 + u) (IZR ipd * (4294967296 / 86400)) (IZR ipd * B2R c_dec_tpi)); [ nra | lra | nra | ].
+    apply RN_rel; [ nra | right; nra ]. }
+  set (D := B2R (f64_mul (f64_of_Z ipd) c_dec_tpi)) in *.
+  assert (D1 : 1 <= D) by nra.
+  destruct (div_spec (f64_of_Z k) (f64_mul (f64_of_Z ipd) c_dec_tpi) 32 ltac:(lia) Bk FD D1) as [EQ _].
+  rewrite EQ, Ek. fold D.
+  (* quotient bounds *)
+  assert (P0 : 0 <= p) by (unfold p; apply Rmult_le_pos; [ lra | left; apply Rinv_0_lt_compat; lra ]).
+  assert (QB : (1 - 5 / 2 * u) * p <= IZR k / D <= (1 + 5 / 2 * u) * p).
+  { unfold p. change (IZR k / t) with (IZR k * / t). change (IZR k / D) with (IZR k * / D). assert (Di : / ((1 + u) * (1 + u) * t) <= / D <= / ((1 - u) * (1 - u) * t)).
+    { split; apply Rinv_le_contravar; nra. }
+    assert (LO : (1 - 5 / 2 * u) * / t <= / ((1 + u) * (1 + u) * t)).
+    { rewrite Rinv_mult by nra. apply Rmult_le_compat_r; [ left; apply Rinv_0_lt_compat; lra | ].
+      unfold u. interval with (i_prec 400). }
+    assert (HI : / ((1 - u) * (1 - u) * t) <= (1 + 5 / 2 * u) * / t).
+    { rewrite Rinv_mult by nra. apply Rmult_le_compat_r; [ left; apply Rinv_0_lt_compat; lra | ].
+      unfold u. interval with (i_prec 400). }
+    split.
+    - replace ((1 - 5 / 2 * u) * (IZR k * / t)) with (IZR k * ((1 - 5 / 2 * u) * / t)) by ring.
+      apply Rmult_le_compat_l; lra.
+    - replace ((1 + 5 / 2 * u) * (IZR k * / t)) with (IZR k * ((1 + 5 / 2 * u) * / t)) by ring.
+      apply Rmult_le_compat_l; lra. }
+  assert (R : (1 - u) * (IZR k / D) <= RN (IZR k / D) <= (1 + u) * (IZR k / D)).
+  { apply RN_rel; [ nra | ].
+    destruct (Z.eq_dec k 0) as [-> | N]; [ left; unfold Rdiv; lra | right ].
+    assert (1 <= IZR k) by (apply IZR_le; lia).
+    assert (/ 6600000000 <= / t) by (apply Rinv_le_contravar; lra).
+    assert (/ 6600000000 <= p) by (unfold p, Rdiv; nra).
+    unfold tiny. nra. }
+  set (q := IZR k / D) in *. set (r := RN q) in *.
+  assert (Q0 : 0 <= q) by nra.
+  assert (A1 : (1 - u) * ((1 - 5 / 2 * u) * p) <= (1 - u) * q) by (apply Rmult_le_compat_l; lra).
+  assert (A2 : (1 + u) * q <= (1 + u) * ((1 + 5 / 2 * u) * p)) by (apply Rmult_le_compat_l; lra).
+  assert (UP : 0 <= u * p) by (apply Rmult_le_pos; lra).
+  assert (UUP : 0 <= u * (u * p) <= / 1000000 * (u * p)) by (split; [ apply Rmult_le_pos; lra | apply Rmult_le_compat_r; lra ]).
+  split; [ apply Rle_trans with ((1 - u) * ((1 - 5 / 2 * u) * p)); [ | lra ] | apply Rle_trans with ((1 + u) * ((1 + 5 / 2 * u) * p)); [ lra | ] ].
+  - replace ((1 - u) * ((1 - 5 / 2 * u) * p)) with (p - 7 / 2 * (u * p) + 5 / 2 * (u * (u * p))) by field. lra.
+  - replace ((1 + u) * ((1 + 5 / 2 * u) * p)) with (p + 7 / 2 * (u * p) + 5 / 2 * (u * (u * p))) by field. lra.
 Qed.
